@@ -111,7 +111,7 @@ pub fn judge(_part: &str, case: &Case, tally: &mut Tally) -> Verdict {
     Verdict::Pass
 }
 
-fn gen_random(src: &mut Src, _i: usize) -> Case {
+pub fn gen_random(src: &mut Src, _i: usize) -> Case {
     use gen::*;
     let mut case = burst_case(
         src,
